@@ -70,9 +70,36 @@ def run_two_pass(seq, law):
     return rec.collective, det
 
 
-def multi_point_series(seq, factors):
+def step_labels(rng, n):
+    """labels of the load_step level: rows are chronological whatever the labels say"""
+    kind = ["from_0", "offset", "gaps", "descending", "shuffled"][int(rng.integers(0, 5))]
+    if kind == "from_0":
+        return kind, list(range(n))
+    if kind == "offset":
+        return kind, list(range(100, 100 + n))
+    if kind == "gaps":
+        return kind, np.sort(rng.choice(np.arange(0, 5 * n + 5), n, replace=False)).tolist()
+    if kind == "descending":
+        return kind, list(range(n - 1, -1, -1))
+    return kind, rng.permutation(n).tolist()
+
+
+def node_labels(rng, k):
+    kind = ["from_0", "ascending_gaps", "descending", "shuffled_large"][int(rng.integers(0, 4))]
+    if kind == "from_0":
+        return kind, list(range(k))
+    if kind == "ascending_gaps":
+        return kind, np.sort(rng.choice(np.arange(1, 50), k, replace=False)).tolist()
+    if kind == "descending":
+        return kind, np.sort(rng.choice(np.arange(1, 50), k, replace=False))[::-1].tolist()
+    return kind, rng.choice(np.arange(1000, 9000), k, replace=False).tolist()
+
+
+def multi_point_series(seq, factors, labels=None, node_ids=None):
     """load series with MultiIndex (load_step, node_id) for proportional points"""
     seq = np.asarray(seq, dtype=float)
-    idx = pd.MultiIndex.from_product([range(len(seq)), range(len(factors))], names=["load_step", "node_id"])
+    labels = list(range(len(seq))) if labels is None else labels
+    node_ids = list(range(len(factors))) if node_ids is None else node_ids
+    idx = pd.MultiIndex.from_product([labels, node_ids], names=["load_step", "node_id"])
     vals = (seq[:, None] * np.asarray(factors, dtype=float)[None, :]).reshape(-1)
     return pd.Series(vals, index=idx)
